@@ -225,3 +225,79 @@ def gen_big(seed, idx):
         steps.append({"op": "tick", "n": 5})
     steps.append({"op": "drain", "n": 110})
     return {"name": f"big-{kind}-{seed}-{idx}", "cfg": {}, "steps": steps, "complete": True, "mode": "seq", "snap": 1 if len(steps) > 150 else 0}
+
+
+def gen_edge(seed, idx):
+    """Boundary values of the request fields: timers near the 16-bit / unit-conversion limits (minute flag x 60 does
+    not fit 16 bits from 1093 minutes on), re-entrant depth at the 8-bit limit, Count at the 16-bit limit, and
+    zero-expiry waiters (answered without ever holding) in front of other waiters."""
+    rng = random.Random(seed * 104729 + idx * 13 + 5)
+    kind = idx % 4
+    steps = []
+    L = lambda **kw: dict({"op": "lock", "conn": 1, "db": 0, "key": 1, "lid": 1, "flag": 0, "tf": 0, "ef": 0, "to": 0, "ex": 30, "cnt": 0, "rc": 0, "nodup": True}, **kw)
+    U = lambda **kw: dict({"op": "unlock", "conn": 1, "db": 0, "key": 1, "lid": 1, "flag": 0, "tf": 0, "ef": 0, "to": 0, "ex": 0, "cnt": 0, "rc": 0}, **kw)
+    if kind == 0:
+        # huge wait timeouts and expiries: nothing may fire early while the clock runs for some hundred seconds
+        bigmin = [1092, 1093, 1100, 2185, 4000, 65535]
+        bigsec = [3000, 40000, 65535]
+        steps.append(L(lid=1, ex=rng.choice(bigmin), ef=0x40))                      # holder, minute expiry
+        steps.append(L(key=2, lid=2, ex=rng.choice(bigsec)))                        # holder, seconds expiry
+        for i in range(rng.randint(2, 5)):
+            if rng.random() < 0.6:
+                steps.append(L(conn=2, lid=10 + i, to=rng.choice(bigmin), tf=0x40, ex=rng.choice([5, 1100]), ef=rng.choice([0, 0x40])))
+            else:
+                steps.append(L(conn=2, key=2, lid=10 + i, to=rng.choice(bigsec), ex=5))
+        if rng.random() < 0.5:
+            steps.append(L(lid=1, flag=2, ex=rng.choice(bigmin), ef=0x40))          # update to another huge expiry
+        for _ in range(rng.randint(2, 4)):
+            steps.append({"op": "tick", "n": rng.choice([60, 200, 470, 700])})
+            if rng.random() < 0.4:
+                steps.append(U(conn=2, lid=10, flag=2))                             # cancel one waiter
+        steps.append(U(lid=1))
+        steps.append(U(key=2, lid=2))
+        steps.append({"op": "tick", "n": 3})
+    elif kind == 1:
+        # re-entrant depth up to (and past) the 8-bit limit
+        rc = rng.choice([254, 255, 255])
+        cnt = rng.choice([0, 1])
+        n = rc + rng.choice([0, 1, 2, 3])
+        for i in range(n + 1):
+            steps.append(L(lid=1, rc=rc, cnt=cnt, ex=300))
+        steps.append(L(conn=2, lid=2, cnt=cnt, to=0, ex=5))                         # a second owner: admissible only if Count allows
+        steps.append(U(lid=1, rc=1))                                                # one level
+        steps.append(L(conn=2, lid=2, cnt=cnt, to=0, ex=5))
+        for _ in range(rng.randint(0, 4)):
+            steps.append(U(lid=1, rc=1))
+        steps.append(L(lid=1, rc=rc, cnt=cnt, ex=300))
+        steps.append(U(lid=1, rc=0))                                                # all levels
+        steps.append(U(lid=1, rc=1))                                                # must be refused
+        steps.append(L(conn=2, lid=3, cnt=cnt, to=0, ex=5))
+    elif kind == 2:
+        # Count at the 16-bit limit, many holders, a newcomer with a small Count
+        cnt = rng.choice([0xffff, 0xfffe, 0x8000])
+        n = rng.choice([3, 40, 300])
+        for l in range(1, n + 1):
+            steps.append(L(conn=1 + l % 3, lid=l, cnt=cnt, ex=100, rc=rng.choice([0, 0, 2])))
+        steps.append(L(conn=2, lid=5000, cnt=rng.choice([0, 1, n - 1, n]), to=0, ex=5))
+        steps.append(L(conn=2, lid=5001, cnt=cnt, to=2, ex=5))
+        for l in rng.sample(range(1, n + 1), min(n, 20)):
+            steps.append(U(lid=l, rc=0))
+        steps.append({"op": "tick", "n": 4})
+    else:
+        # zero-expiry waiters (granted and gone at once) in front of ordinary waiters, on exclusive and shared keys
+        cnt = rng.choice([0, 0, 1])
+        steps.append(L(lid=1, cnt=cnt, ex=rng.choice([3, 50])))
+        if cnt:
+            steps.append(L(lid=2, cnt=cnt, ex=50))
+        for i in range(rng.randint(2, 6)):
+            steps.append(L(conn=2 + i % 2, lid=20 + i, cnt=rng.choice([cnt, cnt, 0]), to=rng.choice([20, 60]),
+                           ex=0 if rng.random() < 0.5 else rng.choice([2, 40]), tf=rng.choice([0, 0, 0x0200])))
+        if rng.random() < 0.5:
+            steps.append({"op": "tick", "n": rng.randint(1, 5)})
+        steps.append(U(lid=1))
+        if cnt:
+            steps.append(U(lid=2))
+        steps.append(L(conn=4, lid=99, cnt=cnt, to=0, ex=5))                        # a late arrival must not overtake live waiters
+        steps.append({"op": "tick", "n": rng.randint(1, 6)})
+    steps.append({"op": "drain", "n": 110})
+    return {"name": f"edge-{kind}-{seed}-{idx}", "cfg": {}, "steps": steps, "complete": True, "mode": "seq", "snap": 0}
